@@ -50,6 +50,8 @@ def run(ctx):
         "batchLevel does not overflow int",
     ]
     ctx.lean(props=["Props.C17"], drivers=["drv_c17"])
+    from vlib import lockfacts
+    lockfacts.run(ctx, "notifier", "Props.C17Lock", "C17Lock")   # lock discipline decided about tables regenerated from the Go source
     ctx.harness("./cmd/c17", overlay=OVERLAY)
     th = ("C17.notify_targets / notify_priority_order / no_textual_prefix / "
           "disabled_or_unregistered_or_reset_silent / merge_spec / batch_nesting / maps_consistent / "
